@@ -447,7 +447,10 @@ def drive_c20(tier, seed, cfg):
     # own reports whose file name points out of the per-run output directory (whatever the run answers, nothing may stay behind)
     inputs["escape_rel.tjp"] = texts[2 % len(texts)][1].encode() + b'taskreport esc "../escaped_report" { formats json, csv columns id }\n'
     inputs["escape_deep.tjp"] = texts[3 % len(texts)][1].encode() + b'taskreport esc "sub/../../escaped_deep" { formats csv columns id, start }\n'
-    failing = {"bad_syntax.tjp", "bad_name.tjp", "empty.tjp", "escape_rel.tjp", "escape_deep.tjp"}
+    # ... and one whose escaping name has directory levels that do not exist yet (seeded change C20-d created them before
+    # the name was rejected)
+    inputs["escape_newdir.tjp"] = texts[4 % len(texts)][1].encode() + b'taskreport esc "../leak_dir/deeper/escaped" { formats csv, json columns id }\n'
+    failing = {"bad_syntax.tjp", "bad_name.tjp", "empty.tjp", "escape_rel.tjp", "escape_deep.tjp", "escape_newdir.tjp"}
     # ---- solitary reference runs
     sol = os.path.join(root, "solo")
     scwd, stmp = os.path.join(sol, "cwd"), os.path.join(sol, "tmp")
